@@ -211,6 +211,15 @@ def _subs(tier, prop):
             pre=['2 * c1 < t0', 't0 < c1 + c2', 'c1 + c2 < t1']))
         S.append(mk_sub('F8-budget-raise', with_ops(serial('H', 1), [
             {'k': 'budget', 'dev': 'src', 't': 't0', 'n': 1}]), mons, zero=['cs']))
+        # a machine holds a finished part nobody takes; a consumer is connected later - by an event, or by the
+        # user's script between two simulate() calls
+        late = {'devices': [{'k': 'source', 'name': 'src', 'cycle': 0, 'parts': 2},
+                            {'k': 'proc', 'name': 'p1', 'up': ['src'], 'cycle': 'c1'},
+                            {'k': 'sink', 'name': 'snk', 'up': [], 'cycle': 'cs'}]}
+        S.append(mk_sub('F8-consumer-connected-by-an-event', with_ops(late, [
+            {'k': 'rewire', 'dev': 'snk', 'up': ['p1'], 't': 't0'}]), mons))
+        S.append(mk_sub('F8-consumer-connected-between-two-runs', dict(with_ops(late, [
+            {'k': 'rewire', 'dev': 'snk', 'up': ['p1'], 'after_run': 0}]), horizons=['h0', 'h1']), mons, pre=['c1 < h0']))
     elif prop == 'C05':
         mons = ['buffer']
         S.append(mk_sub('F1-B-n3-cap1', serial('B', 3, caps={1: 1}), mons, zero=['c0'] if q else []))
@@ -442,6 +451,22 @@ def _subs(tier, prop):
         sp4['devices'][1]['costs'] = {'m': 'k0'}
         sp4['devices'][0]['value'] = 'v0'
         S.append(mk_sub('F6-workorder-cost', sp4, mons, zero=['cs'], ranges={'k0': (0, L.T), 'v0': (0, L.T)}))
+        # every kind of asset that takes a starting value gets one: value == the value given + its history
+        allv = {'horizon': 'h0', 'devices': [
+            {'k': 'source', 'name': 'src', 'cycle': 0, 'parts': 1, 'value': 'v0'},
+            {'k': 'handler', 'name': 'h1', 'up': ['src'], 'cycle': 0, 'value0': 'w1'},
+            {'k': 'junction', 'name': 'j1', 'up': ['h1'], 'value0': 'w2'},
+            {'k': 'proc', 'name': 'p1', 'up': ['j1'], 'cycle': 1, 'value0': 'w1', 'addvalue': 1},
+            {'k': 'buffer', 'name': 'buf', 'up': ['p1'], 'delay': 0, 'cap': 2, 'value0': 'w2'},
+            {'k': 'batcher', 'name': 'bat', 'up': ['buf'], 'size': 1, 'value0': 'w1'},
+            {'k': 'sink', 'name': 'snk', 'up': ['bat'], 'cycle': 0},
+            {'k': 'maintainer', 'name': 'mt', 'capacity': 1, 'value0': 'w2'},
+            {'k': 'cms', 'name': 'cms', 'value0': 'w1'},
+            {'k': 'sensor', 'name': 's0', 'target': 'p1', 'value0': 'w2'},
+            {'k': 'psensor', 'name': 's1', 'target': 'p1', 'interval': 'iv', 'value0': 'w1'},
+            {'k': 'osensor', 'name': 's2', 'target': 'p1', 'value0': 'w2'}]}
+        S.append(mk_sub('F9-starting-values-of-every-asset-kind', allv, mons, ranges={'v0': (0, L.T), 'w1': (1, L.T), 'w2': (-L.T, -1), 'iv': (1, L.T)},
+                        pre=['h0 < 2 * iv']))
     elif prop == 'C08':
         mons = ['routing']
         fan = {'devices': [{'k': 'source', 'name': 'src', 'cycle': 'c0', 'parts': 3},
@@ -491,6 +516,15 @@ def _subs(tier, prop):
                             {'k': 'sink', 'name': 'snk', 'up': ['p1', 'p2'], 'cycle': 0}], 'idle_longest': ['p1', 'p2'],
                 'ops': [{'k': 'block', 'dev': 'p1', 't': 0, 'prio': 'high'}, {'k': 'unblock', 'dev': 'p1', 't': 't1'}]}
         S.append(mk_sub('F2-fanout-sibling-blocked-then-unblocked', fanb, mons, pre=['c0 + c1 < t1', 't1 < 2 * c0']))
+        # a buffer releases two parts in one sweep to junctions in front of parallel machines: the ranking of the
+        # junctions changes with the first hand-over
+        junc = {'devices': [{'k': 'source', 'name': 'src', 'cycle': 0, 'parts': 2}, {'k': 'source', 'name': 'src2', 'cycle': 0, 'parts': 1},
+                            {'k': 'buffer', 'name': 'buf', 'up': ['src'], 'delay': 'd1', 'cap': 5},
+                            {'k': 'gate', 'name': 'j1', 'up': ['buf'], 'pred': 'all'}, {'k': 'gate', 'name': 'j2', 'up': ['buf'], 'pred': 'all'},
+                            {'k': 'proc', 'name': 'a1', 'up': ['j1', 'src2'], 'cycle': 'c1'}, {'k': 'proc', 'name': 'a2', 'up': ['j1'], 'cycle': 'c2'},
+                            {'k': 'proc', 'name': 'b1', 'up': ['j2'], 'cycle': 'c2'},
+                            {'k': 'sink', 'name': 'snk', 'up': ['a1', 'a2', 'b1'], 'cycle': 0}], 'idle_longest': ['a1', 'a2', 'b1']}
+        S.append(mk_sub('F2-buffer-sweep-over-junctions', junc, mons, pre=['1 <= c1', 'c1 < d1']))
         S.append(mk_sub('F8-block-path', with_ops(reent, [{'k': 'block', 'dev': 'gp2', 't': 't0'}, {'k': 'unblock', 'dev': 'gp2', 't': 't1'}]),
                         mons, zero=['cs', 'c0'], pre=['t0 <= t1']))
         S.append(mk_sub('F8-block-gate', with_ops(gates, [{'k': 'block', 'dev': 'ge', 't': 't0'}, {'k': 'unblock', 'dev': 'ge', 't': 't1'}]),
@@ -518,6 +552,14 @@ def _subs(tier, prop):
                             {'k': 'sink', 'name': 'snk', 'up': ['h'], 'cycle': 0}],
                 'ops': [{'k': 'block', 'dev': 'h', 't': 0, 'prio': 'high'}, {'k': 'unblock', 'dev': 'h', 't': 't0'}]}
         S.append(mk_sub('F7-size2-blocked-downstream', spec, ['batch', 'census'], ranges={'b0': (0, 3), 'b1': (0, 3)}))
+        # batches travelling through a group (and refused once behind it): the parts inside visit what the batch visits
+        spec = {'groups': [{'name': 'g', 'devices': ['m1']}],
+                'devices': [{'k': 'source', 'name': 'src', 'cycle': 'c0', 'parts': 2, 'batches': [2, 2]},
+                            {'k': 'handler', 'name': 'm1', 'up': [], 'cycle': 'c1'},
+                            {'k': 'path', 'name': 'gp', 'group': 'g', 'up': ['src']},
+                            {'k': 'proc', 'name': 'p1', 'up': ['gp'], 'cycle': 'c2'},
+                            {'k': 'sink', 'name': 'snk', 'up': ['p1'], 'cycle': 0}]}
+        S.append(mk_sub('F7-batches-through-a-group', spec, ['routing', 'census'], zero=['c0']))
     return S
 
 
